@@ -12,17 +12,19 @@ def run_one(name, text, keep=True):
     sp = os.path.join(TRACES, name + '.scn')
     tp = os.path.join(TRACES, name + '.trace')
     open(sp, 'w').write(text)
-    for attempt in range(3):
+    import time, random
+    for attempt in range(5):
         rc, out = core.run([core.BSH, 'proto', sp], timeout=180)
         if rc == 0 and 'DONE' in out:
             break
+        time.sleep(0.2 + random.random() * 0.5 * (attempt + 1))
         # a port picked as free may have been taken by a parallel child before it was bound
         # (UdpSocket::bind(...).unwrap() in create_server/create_client): run it again
     open(tp, 'w').write(out)
     res = dict(name=name, scenario=sp, trace_path=tp, trace=out, diffs=[], frames=0, left=0, ok=True)
     if rc != 0 or 'DONE' not in out:
         res['ok'] = False
-        res['diffs'].append('harness run failed (rc %s): %s' % (rc, out[-300:]))
+        res['diffs'].append('harness run failed 5 times (rc %s): %s' % (rc, out[-600:].replace('\n', ' | ')))
         return res
     if os.path.exists(core.DRIVER) and 'noreplay' not in name:
         rc2, dout = core.run([core.DRIVER, 'proto', tp], timeout=120)
